@@ -302,6 +302,37 @@ namespace c09
         static bool is_container() { return false; }
         static std::string show(const S7 &v) { return "S7{" + std::to_string(v.value) + "}"; }
     };
+    // a polymorphic reflectable type handed to the archive through a reference to its base: the base's (non-virtual) reflect()
+    // delegates to a virtual member, so the fields of the dynamic type go on the wire. V1 is the owner that does so.
+    struct Shape
+    {
+        int32_t id = 0;
+        virtual ~Shape() = default;
+        virtual void fields(igris::archive::binary_serializer_basic &w) { w & id; }
+        virtual void fields(igris::archive::binary_deserializer_basic &r) { r & id; }
+        template <class R> void reflect(R &r) { fields(r); }
+    };
+    struct Circle : Shape
+    {
+        float radius = 0;
+        std::string label;
+        void fields(igris::archive::binary_serializer_basic &w) override { Shape::fields(w); w & radius; w & label; }
+        void fields(igris::archive::binary_deserializer_basic &r) override { Shape::fields(r); r & radius; r & label; }
+    };
+    struct V1
+    {
+        Circle c;
+        void serialize(igris::archive::binary_serializer_basic &m) const { const Shape &base = c; m & base; }
+        void deserialize(igris::archive::binary_deserializer_basic &m) { Shape &base = c; m & base; }
+    };
+    template <> struct Ref<V1>
+    {
+        static V1 gen(kit::Rng &r, GenCfg &c) { V1 v; v.c.id = Ref<int32_t>::gen(r, c); v.c.radius = Ref<float>::gen(r, c); v.c.label = Ref<std::string>::gen(r, c); return v; }
+        static void enc(const V1 &v, std::string &o) { Ref<int32_t>::enc(v.c.id, o); Ref<float>::enc(v.c.radius, o); Ref<std::string>::enc(v.c.label, o); }
+        static bool eq(const V1 &a, const V1 &b) { return a.c.id == b.c.id && Ref<float>::eq(a.c.radius, b.c.radius) && a.c.label == b.c.label; }
+        static bool is_container() { return true; }
+        static std::string show(const V1 &v) { return "V1{" + std::to_string(v.c.id) + ",str[" + std::to_string(v.c.label.size()) + "]}"; }
+    };
     struct P1
     {
         static const char *apiname() { return "archive"; }
@@ -511,6 +542,8 @@ namespace c09
         T1(std::vector<S6>, 1, true);
         T1(S7, 0, false);
         T1(std::vector<S7>, 1, true);
+        T1(V1, 1, false);
+        T1(std::vector<V1>, 2, true);
 #undef T1
         return a;
     }
